@@ -115,6 +115,8 @@ func (fx *FuncExec) siteAsserts(ps *pathState, site, when string, vars map[strin
 	if fx.con == nil {
 		return
 	}
+	// all assertions of a site are checked against the same state; only then they are assumed
+	var proved []Term
 	for i, sa := range fx.con.Sites {
 		if fmt.Sprintf("%s#%d", sa.Callee, sa.K) != site || sa.When != when {
 			continue
@@ -122,11 +124,12 @@ func (fx *FuncExec) siteAsserts(ps *pathState, site, when string, vars map[strin
 		env := fx.specEnv(ps, token.NoPos, copyVars(vars))
 		t := env.boolTerm(sa.Cl.Expr)
 		fx.noteSpecErr(env, sa.Cl)
-		if sa.Assume {
-			ps.st.assume(t)
-			continue
+		if !sa.Assume {
+			fx.addObl(fmt.Sprintf("assert.%s@%s %s", clauseName(sa.Cl, i), when, site), "assert", fx.prop(sa.Cl), sa.Cl.Text, sa.Cl.Line, false, ps.st, t, ps.trail)
 		}
-		fx.addObl(fmt.Sprintf("assert.%s@%s %s", clauseName(sa.Cl, i), when, site), "assert", fx.prop(sa.Cl), sa.Cl.Text, sa.Cl.Line, false, ps.st, t, ps.trail)
+		proved = append(proved, t)
+	}
+	for _, t := range proved {
 		ps.st.assume(t)
 	}
 }
